@@ -11,22 +11,26 @@
 (*  [k:"tree"]   check the dumped tree structurally                        *)
 (*  [k:"dis", levels, out, real, ref]                                      *)
 (*      one disassemble(bytes) call.  levels = one record per prefix level *)
-(*      [bytes, acc, chosen]: the remaining input, the ids (as found) of   *)
-(*      the specs whose ispec.decode accepts it (fresh partial instruction,*)
-(*      hooks included), the spec the real disassembler used (0: none);    *)
+(*      [bytes, cand, acc, tried, chosen]: the remaining input; cand = ids *)
+(*      (as found) of the specs whose length / fixed-bit test passes (no   *)
+(*      DecodeError: decided before anything is touched); acc = those of   *)
+(*      them that also accept with a FRESH partial instruction; tried =    *)
+(*      the specs whose precondition / setup function the real call ran,   *)
+(*      in order; chosen = the spec that ended the level (0: none);        *)
 (*      out = "ins" | "none" | "exc:<type>", real / ref = projections of   *)
-(*      the returned instruction and of the one decoded by the reference   *)
-(*      chain (strings; "" when none).                                     *)
+(*      the returned instruction and of the one decoded again along the    *)
+(*      chosen chain with fresh objects.                                   *)
 (* Property clauses                                                        *)
 (*   Partition, Routing, LeafOrder   the tree hides no spec                *)
-(*   ChosenIsAccepted, ChosenMostConstrained, SameOutcome                  *)
+(*   TriedNotMatching, TriedTwice, HiddenCandidate, ChosenIsLastTried,     *)
+(*   NotMostConstrainedFirst, SkippedMoreConstrained  (see LevelProp)      *)
 (* Model-shaped (drift) clauses                                            *)
 (*   LeafOrderStable, ExactShape (tree = DecTreeOps!Build of the list),    *)
-(*   ChosenFirstStable (first accepted in stable order)                    *)
-(* A failure is tagged "/EndianAtBuild" when the tree is a correct index    *)
-(* for the fetch order endian() reported at import but not for the one of  *)
-(* the call (Routing), resp. when the transcribed walk over the DUMPED     *)
-(* tree with the call's key predicts exactly what the real code did.       *)
+(*   FreshStateWinnerDiffers, TriedInStableOrder, ChosenFirstStable,       *)
+(*   OutcomeDiffersFromFreshChain                                          *)
+(* A Routing failure is tagged "/EndianAtBuild" when the tree is a correct *)
+(* index for the fetch order endian() reported at import but not for the   *)
+(* one of the call.                                                        *)
 (***************************************************************************)
 EXTENDS DecTreeOps, TLC, Json, IOUtils
 
@@ -87,23 +91,44 @@ WalkAcc(N, b, acc) ==
   ELSE LET k == b \cap N.f IN IF k \in DOMAIN N.kids THEN WalkAcc(N.kids[k], b, acc) ELSE 0
 Predicted(lv) == WalkAcc(T, KeyOf(lv.bytes, PC(Tr)), ToSet(lv.acc))
 
+(* The tree is only an index: at every level the real scan runs precondition / setup function of       *)
+(* exactly the specs whose fixed bits match (cand - independent of any state), most constrained first, *)
+(* up to the one that ends the level; it stops without a winner only after all of them.                *)
+(* (What a rejected setup function leaves behind in the partial instruction is then the same as in the *)
+(* full scan; whether it SHOULD leave anything behind is C05/C11, not C04 - see LevelFresh, drift.)     *)
 LevelProp(lv) ==
-  IF lv.acc = <<>> THEN (IF lv.chosen = 0 THEN "ok" ELSE "ChosenIsAccepted")
-  ELSE IF lv.chosen = 0 \/ S[lv.chosen].w # MaxW(lv.acc)
-       THEN (IF Tr.E # Tr.Ebuild /\ Predicted(lv) = lv.chosen THEN "ChosenMostConstrained/EndianAtBuild" ELSE "ChosenMostConstrained")
-  ELSE IF lv.chosen \notin ToSet(lv.acc) THEN "ChosenIsAccepted"
+  LET t == lv.tried
+      c == ToSet(lv.cand)
+      ts == ToSet(t)
+  IN IF \E k \in 1..Len(t) : t[k] \notin c THEN "TriedNotMatching"
+     ELSE IF Cardinality(ts) # Len(t) THEN "TriedTwice"
+     ELSE IF lv.chosen = 0 /\ ts # c THEN "HiddenCandidate"
+     ELSE IF lv.chosen # 0 /\ (t = <<>> \/ t[Len(t)] # lv.chosen) THEN "ChosenIsLastTried"
+     ELSE IF \E k \in 1..(Len(t) - 1) : S[t[k]].w < S[t[k + 1]].w THEN "NotMostConstrainedFirst"
+     ELSE IF \E x \in c \ ts : \E k \in 1..Len(t) : S[x].w > S[t[k]].w THEN "SkippedMoreConstrained"
+     ELSE "ok"
+(* stricter, model-shaped: the winner is also the most constrained spec that accepts with a FRESH partial *)
+(* instruction, and the specs were tried in exactly the stable order                                      *)
+LevelFresh(lv) ==
+  IF lv.acc = <<>> THEN (IF lv.chosen = 0 THEN "ok" ELSE "FreshStateWinnerDiffers")
+  ELSE IF lv.chosen = 0 \/ S[lv.chosen].w # MaxW(lv.acc) \/ lv.chosen \notin ToSet(lv.acc) THEN "FreshStateWinnerDiffers"
   ELSE "ok"
-LevelDrift(lv) == IF lv.acc # <<>> /\ lv.chosen # 0 /\ lv.chosen # FirstStable(lv.acc) THEN "ChosenFirstStable" ELSE "ok"
+LevelDrift(lv) ==
+  LET f == LevelFresh(lv) IN
+  IF f # "ok" THEN f
+  ELSE IF \E k \in 1..(Len(lv.tried) - 1) : ~Before(S, lv.tried[k], lv.tried[k + 1]) THEN "TriedInStableOrder"
+  ELSE IF lv.acc # <<>> /\ lv.chosen # 0 /\ lv.chosen # FirstStable(lv.acc) THEN "ChosenFirstStable"
+  ELSE "ok"
 
 FirstNotOk(cs) == IF \A k \in 1..Len(cs) : cs[k] = "ok" THEN "ok"
                   ELSE cs[CHOOSE k \in 1..Len(cs) : cs[k] # "ok" /\ \A m \in 1..(k - 1) : cs[m] = "ok"]
 
-DisProp(e) ==
-  LET c == FirstNotOk([k \in 1..Len(e.levels) |-> LevelProp(e.levels[k])]) IN
+DisProp(e) == FirstNotOk([k \in 1..Len(e.levels) |-> LevelProp(e.levels[k])])
+DisDrift(e) ==
+  LET c == FirstNotOk([k \in 1..Len(e.levels) |-> LevelDrift(e.levels[k])]) IN
   IF c # "ok" THEN c
-  ELSE IF e.real # e.ref THEN "SameOutcome"
+  ELSE IF e.real # e.ref THEN "OutcomeDiffersFromFreshChain"
   ELSE "ok"
-DisDrift(e) == FirstNotOk([k \in 1..Len(e.levels) |-> LevelDrift(e.levels[k])])
 
 (* failures are tallied per clause: <<[clause, line (first), n]>> *)
 Tally(acc, c, line) ==
